@@ -25,6 +25,24 @@ func Origins(v ssa.Value) []ssa.Value {
 			}
 		case *ssa.ChangeType:
 			walk(x.X)
+		case *ssa.UnOp:
+			// load of a local (named result spilled because of defer, or a
+			// variable captured by address): every value stored into it
+			if al, ok := x.X.(*ssa.Alloc); ok && x.Op == token.MUL {
+				n := 0
+				if refs := al.Referrers(); refs != nil {
+					for _, r := range *refs {
+						if st, ok := r.(*ssa.Store); ok && st.Addr == ssa.Value(al) {
+							walk(st.Val)
+							n++
+						}
+					}
+				}
+				if n > 0 {
+					return
+				}
+			}
+			out = append(out, v)
 		default:
 			out = append(out, v)
 		}
